@@ -9,6 +9,7 @@ import ChythonModel.Proofs.C06Count
 import ChythonModel.Proofs.C06RingVec
 import ChythonModel.Proofs.C06SkinCycles
 import ChythonModel.Proofs.C06Arom
+import ChythonModel.Proofs.C06Mol
 /-!
 # C06 — ring perception returns a minimum cycle basis that ring marks agree with
 
@@ -55,6 +56,20 @@ theorem check_sssr_complete (g : Adj) (rings : List (List Nat))
     (h3 : cyclomatic g = some (rings.length : Int)) : checkSssr g rings = true := by
   simp only [checkSssr, Bool.and_eq_true, List.all_eq_true, beq_iff_eq]
   exact ⟨⟨fun r hr => (isCycleOf_iff g r).2 (h1 r hr), h3⟩, (indepCheck_iff _).2 h2⟩
+
+/-- **what a green relational check certifies about a molecule**: if the checker accepts the ring list reported for a
+well-formed molecule `m` (run on `not_special_connectivity`), then the list has exactly `rings_count` members — bonds minus
+atoms plus components, coordinate bonds ignored —, every member is a simple cycle all of whose bonds exist in `m` with
+order ≠ 8, and the members are linearly independent over GF(2). -/
+theorem certified_ring_set (m : ChythonModel.Model.Mol) (hwf : m.WF = true) (rings : List (List Nat))
+    (hc : checkSssr (notSpecial m) rings = true) :
+    ringsCount m = some (rings.length : Int) ∧
+    (∀ r ∈ rings, 3 ≤ r.length ∧ r.Nodup ∧
+      ∀ ab ∈ cyclePairs r, ∃ bd, m.bond? ab.1 ab.2 = some bd ∧ bd.order ≠ 8) ∧
+    Independent (rings.map (ringVec (edgeList (notSpecial m)))) := by
+  obtain ⟨h1, h2, h3⟩ := check_sssr_sound _ _ hc
+  refine ⟨?_, fun r hr => ⟨(h1 r hr).1, (h1 r hr).2.1, ring_bonds_exist hwf (h1 r hr)⟩, h2⟩
+  rw [ringsCount_eq_cyclomatic m hwf]; exact h3
 
 /-- a simple cycle uses each of its bonds once -/
 theorem cycle_edges_distinct (r : List Nat) (h3 : 3 ≤ r.length) (hnd : r.Nodup) : (cycleEdges r).Nodup :=
